@@ -32,7 +32,7 @@ def ser_ref(a):
     if isinstance(a, ScalarVariable):
         return {'v': int(a.id)}
     return {'kind': a.__atom_text__(), 'args': [ser_arg(x) for x in a.args], 'epi': int(a.epigraph_variable.id),
-            'epiname': a.epigraph_variable.parent.name}
+            'epiname': getattr(a.epigraph_variable.parent, 'name', None)}
 
 
 def ser_se(se):
